@@ -44,6 +44,12 @@ func VerifC17Journal() {
 	nrecMode := rt.Choose("nrec.mode", 3) // exact / 0 (not yet synced) / -1 (no-sync mode)
 	cut := rt.Choose("cut", 5)            // none / torn final record / header zeroed / empty file / cut inside the header
 
+	stray := uint32([]int{0, 0, n0 + 5}[rt.Choose("stray.record", 3)])
+	if rt.Choose("stray.present", 2) == 0 {
+		stray = 0
+	} else if stray == 0 {
+		stray = 0xffffffff // stands for "page number zero" below
+	}
 	// build the journal; the sector size is any value SQLite accepts (a power of two in 32..65536)
 	// (sectors smaller than a record are in VerifC17JournalSmallSector: there the sector-aligned offset after a
 	// torn record falls inside the record, where page bytes may imitate a header)
@@ -83,7 +89,19 @@ func VerifC17Journal() {
 		} else {
 			hdr = append(hdr, make([]byte, sector-len(hdr))...)
 		}
+		if s == 0 && stray != 0 && nrec > 0 {
+			binary.BigEndian.PutUint32(hdr[8:], uint32(nrec+1))
+		}
 		j = append(j, hdr...)
+		if s == 0 && stray != 0 {
+			// a record whose page number is not a page of the original database (zero, or beyond its size);
+			// SQLite skips such a record and carries on with the next one
+			pg := stray
+			if pg == 0xffffffff {
+				pg = 0
+			}
+			j = append(j, verifJournalRecord(pg, rt.Bytes("stray.data", verifP), nonce)...)
+		}
 		for i := 0; i < cnt; i++ {
 			j = append(j, verifJournalRecord(uint32(order[idx]), img0[order[idx]-1], nonce)...)
 			idx++
